@@ -59,7 +59,7 @@ impl Monitor for C12 {
     }
     fn generate(&self, r: &mut Rng, tier: Tier, _i: u64) -> C12Case {
         let (name, cfg) = pick_family(r, FAMILIES);
-        let (u, p) = gener::generate(r, &cfg);
+        let (name, (u, p)) = if r.chance(1, 25) { ("wide-union", gener::wide_union(r)) } else { (name, gener::generate(r, &cfg)) };
         C12Case { family: name.into(), u, p, policies: vec![random_policy(r), Policy::Random(r.next())], pause_mask: random_pause_mask(r), cap: tier.pick(40, 200) }
     }
     fn check(&self, c: &C12Case, ctx: &mut Ctx) {
